@@ -1013,7 +1013,7 @@ func runNodeAPI(dir string, seed uint64, tier string) {
 				{sK("pause", k)}, {fail1(sK("pause", k))}, {trf1(sK("pause", k))}, {sK("resume", k)}, {sK("pause", k), sK("resume", k)},
 				{sK("pause", k), counterResume()}, {sK("pause", k), counterPause(), counterResume()}, {counterPause(), sK("pause", k), sK("resume", k)},
 				{counterPause(), counterResume()}, {sK("pause", k), sK("pause", k), sK("resume", k), sK("resume", k)},
-				{sVoucher(k, 5)}, {fail1(sVoucher(k, 5))}, {sVoucher(k, 5), sVoucher(k, 6)}, {sResult(k, 6)}, {fail1(sResult(k, 6))}, {sResult(k, 6), sResult(k, 8)},
+				{sVoucher(k, 5)}, {fail1(sVoucher(k, 5))}, {sVoucher(k, 5), sVoucher(k, 6)}, {sResult(k, 6)}, {fail1(sResult(k, 6))}, {sResult(k, 6), sResult(k, 8)}, {sResult(k, 6), sResult(k, 6)}, {sVoucher(k, 5), sVoucher(k, 5)},
 				{sK("tcancelled", k), sK("close", k)}, {sCompleted(k, true)}, {sCompleted(k, true), sCompleted(k, true)}, {sCompleted(k, false), sCompleted(k, false)},
 			}
 			if roleInitiator(role) && (status == "Ongoing" || status == "Queued" || status == "AwaitingAcceptance") {
